@@ -421,14 +421,14 @@ def execAppend : UExec := fun args =>
       | some t => failE { text := t }
       | none => replyP (newInteger nv.length)
 
+/-- a negative index counts from the end -/
+def normIdx (len i : Int) : Int := if i < 0 then len + i else i
+
 /-- Redis' GETRANGE index normalisation; `none` = empty result -/
 def getRangeBounds (len start stop : Int) : Option (Nat × Nat) :=
   if start < 0 ∧ stop < 0 ∧ start > stop then none else
-  let s := if start < 0 then len + start else start
-  let e := if stop < 0 then len + stop else stop
-  let s := if s < 0 then 0 else s
-  let e := if e < 0 then 0 else e
-  let e := if e ≥ len then len - 1 else e
+  let s := max 0 (normIdx len start)
+  let e := min (len - 1) (max 0 (normIdx len stop))
   if len = 0 ∨ s > e then none else some (s.toNat, e.toNat)
 
 def getRange (v : Bytes) (start stop : Int) : Bytes :=
